@@ -19,7 +19,9 @@ three float renderings of the same angle, e.g. exactly math.pi for the seam), an
 shape = request shape + colour axes; no exception.  Call-history independence: a second request with the same shape, first
 and last point (and every order-insensitive digest) but permuted interior points, two live samplers of different maps
 called alternately with identical requests, and the same request arrays modified in place between calls must each give
-TLC's value for every point.  "sky" tables are also pushed through plate_carree_galactic_sampler (same battery) at the
+TLC's value for every point.  Request presentation: the same points as Fortran-ordered arrays, transposed / strided /
+reversed / sliced / broadcast views, read-only arrays, lon and lat in different layouts, 1-d / 3-d / 0-d requests and Python
+floats (three of these per sampler and table, in rotation) must give TLC's value at every point in the request's own shape.  "sky" tables are also pushed through plate_carree_galactic_sampler (same battery) at the
 ICRS coordinates whose Galactic image (astropy, trusted) are the table's angles.
 """
 import json
@@ -35,6 +37,12 @@ SAMPLER_OF = {
     "zeroleft": "plate_carree_planet_zeroleft_sampler",
 }
 LAYOUTS = ["sky", "zeroright", "planet", "zeroleft"]
+# how the caller may present one and the same set of request points
+REQUEST_LAYOUTS = ["Fortran-ordered arrays", "transposed views", "lon Fortran-ordered, lat C-ordered", "strided views of larger arrays",
+                   "views with negative strides", "1-d request", "non-contiguous column slices", "read-only arrays",
+                   "lon C-ordered, lat a transposed view", "3-d request", "broadcast views (zero strides)", "0-d request", "Python floats"]
+LAYOUTS_PER_BATTERY = 3
+layout_counter = [0]
 
 CFG = """SPECIFICATION Spec
 CONSTANTS
@@ -142,22 +150,23 @@ def replay_table(ctx, rec, S, gal_tools):
             out = np.asarray(call())
         except Exception as e:  # noqa - an IndexError is "indexes outside the map"; anything else is no answer at all
             ctx.violation(key + ":raises", "%s on a %dx%d %s map raised %r for a request of shape %s%s"
-                          % (name, ny, nx, label, e, lon_a.shape, hist), dict(case, request_shape=list(lon_a.shape)))
+                          % (name, ny, nx, label, e, np.shape(lon_a), hist), dict(case, request_shape=list(np.shape(lon_a))))
             return False
-        if out.shape != lon_a.shape + colour:
+        req_shape = np.shape(lon_a)
+        if out.shape != req_shape + colour:
             ctx.violation(key + ":shape", "%s on a %s map of shape %s: request shape %s gives result shape %s, expected %s%s"
-                          % (name, label, (ny, nx) + colour, lon_a.shape, out.shape, lon_a.shape + colour, hist),
-                          dict(case, request_shape=list(lon_a.shape)))
+                          % (name, label, (ny, nx) + colour, req_shape, out.shape, req_shape + colour, hist),
+                          dict(case, request_shape=list(req_shape)))
             return False
         val, consistent = decode(out)
-        ok = (val[..., None] == want).any(axis=-1) & consistent
-        bad = np.argwhere(~ok)
+        ok = ((val[..., None] == want).any(axis=-1) & consistent).reshape(-1)
+        bad = np.flatnonzero(~ok)
         if len(bad):
-            first = bad[int(np.argmin(np.abs(lon_a[bad[:, 0], bad[:, 1]])))]       # report the mismatch nearest lon 0
-            ia, ib = int(first[0]), int(first[1])
-            lo, la = float(lon_a[ia, ib]), float(lat_a[ia, ib])
-            adm = sorted(set(int(x) for x in want[ia, ib]))
-            o = int(val[ia, ib])
+            lon_f, lat_f = np.asarray(lon_a, dtype=float).reshape(-1), np.asarray(lat_a, dtype=float).reshape(-1)   # logical (C) order
+            first = int(bad[int(np.argmin(np.abs(lon_f[bad])))])                  # report the mismatch nearest lon 0
+            lo, la = float(lon_f[first]), float(lat_f[first])
+            adm = sorted(set(int(x) for x in want.reshape(ok.size, -1)[first]))
+            o = int(np.asarray(val).reshape(-1)[first])
             ctx.violation(key + ":" + what,
                           "%s, %dx%d (ny x nx) %s map: at lon=%.17g lat=%.17g the %s %s but the sampler returned the value of "
                           "(row %d, col %d); %d of %d points differ%s"
@@ -194,6 +203,61 @@ def replay_table(ctx, rec, S, gal_tools):
                       want[:1, :1], (), dec_scalar)])
         if not base_ok:
             return          # already wrong without any history: reported above, nothing more to learn from sequences
+        # ---- the memory layout / dimensionality of the request is the caller's business: the same points presented as
+        # Fortran-ordered arrays, views (transposed, strided, reversed, sliced, broadcast), read-only arrays, lon and lat in
+        # different layouts, 0-d / 1-d / 3-d requests must give TLC's value at every point, in the request's own (logical) shape.
+        # A few of the layouts per battery, in rotation, so that every sampler meets every layout many times per run.
+        nj, nk = LONr.shape
+        for _ in range(LAYOUTS_PER_BATTERY):
+            which = layout_counter[0] % len(REQUEST_LAYOUTS)
+            layout_counter[0] += 1
+            lay = REQUEST_LAYOUTS[which]
+            lon_v = lat_v = want_v = None
+            if lay == "Fortran-ordered arrays":
+                lon_v, lat_v, want_v = np.asfortranarray(LONr), np.asfortranarray(LATr), want
+            elif lay == "lon Fortran-ordered, lat C-ordered":
+                lon_v, lat_v, want_v = np.asfortranarray(LONr), np.ascontiguousarray(LATr), want
+            elif lay == "lon C-ordered, lat a transposed view":
+                lon_v, lat_v, want_v = np.ascontiguousarray(LONr), np.ascontiguousarray(LATr.T).T, want
+            elif lay == "transposed views":
+                lon_v, lat_v, want_v = LONr.T, LATr.T, np.transpose(want, (1, 0, 2))
+            elif lay == "strided views of larger arrays":
+                big_lon, big_lat = np.full((2 * nj, 3 * nk), 1e3), np.full((2 * nj, 3 * nk), 0.1)
+                big_lon[::2, 1::3] = LONr
+                big_lat[::2, 1::3] = LATr
+                lon_v, lat_v, want_v = big_lon[::2, 1::3], big_lat[::2, 1::3], want
+            elif lay == "views with negative strides":
+                lon_v, lat_v, want_v = LONr[::-1, ::-1], LATr[::-1, ::-1], want[::-1, ::-1]
+            elif lay == "non-contiguous column slices":
+                wide_lon, wide_lat = np.full((nj, nk + 4), -1e3), np.full((nj, nk + 4), -0.1)
+                wide_lon[:, 2:-2] = LONr
+                wide_lat[:, 2:-2] = LATr
+                lon_v, lat_v, want_v = wide_lon[:, 2:-2], wide_lat[:, 2:-2], want
+            elif lay == "read-only arrays":
+                lon_v, lat_v, want_v = LONr.copy(), LATr.copy(), want
+                lon_v.setflags(write=False)
+                lat_v.setflags(write=False)
+            elif lay == "broadcast views (zero strides)":
+                if (LONr == LONr[:1]).all() and (LATr == LATr[:, :1]).all():
+                    lon_v, lat_v, want_v = np.broadcast_to(LONr[0], (nj, nk)), np.broadcast_to(LATr[:, :1], (nj, nk)), want
+            elif lay == "1-d request":
+                lon_v, lat_v, want_v = LONr.reshape(-1), LATr.reshape(-1), want.reshape((-1,) + want.shape[2:])
+            elif lay == "3-d request":
+                lon_v, lat_v, want_v = LONr.reshape(nj, 1, nk), LATr.reshape(nj, 1, nk), want.reshape((nj, 1, nk) + want.shape[2:])
+            elif lay == "0-d request":
+                a, b = nj // 2, (2 * nk) // 3
+                lon_v, lat_v, want_v = np.array(LONr[a, b]), np.array(LATr[a, b]), want[a, b]
+            elif lay == "Python floats":
+                a, b = nj - 1, nk // 3
+                lon_v, lat_v, want_v = float(LONr[a, b]), float(LATr[a, b]), want[a, b]
+            if lon_v is None:
+                continue
+            if which % 2:
+                judge_out(name, "RGB", lambda: make(rgb_map)(lon_v, lat_v), lon_v, lat_v, want_v, (3,), dec_rgb, "request-layout",
+                          " [request given as %s]" % lay)
+            else:
+                judge_out(name, "scalar", lambda: f_scalar(lon_v, lat_v), lon_v, lat_v, want_v, (), dec_scalar, "request-layout",
+                          " [request given as %s]" % lay)
         # ---- every point's answer is independent of the call history.  Request B has the shape, the first and the last
         # element (hence every order-insensitive digest too) of request A but its interior points are permuted; both are
         # asked of two live sampler objects built from different maps, alternately, and once through the same array
@@ -250,6 +314,7 @@ def replay_table(ctx, rec, S, gal_tools):
 
 def run(ctx):
     repo.setup(ctx)
+    layout_counter[0] = 0
     import numpy as np  # noqa
     from toasty import samplers as S
     from astropy.coordinates import SkyCoord, Galactic
@@ -261,7 +326,8 @@ def run(ctx):
                 "poles; edge: the units adjacent to every cell edge and centre at 1/(4g) of a cell; grid: the cell edges, corners and centres "
                 "themselves with the set of admissible cells, in three float renderings); each table is pushed through "
                 "the real sampler (scalar, RGB and a second map, four request shapes, then a call-history sequence with colliding "
-                "requests: permuted interior, alternating samplers, request arrays modified in place) and, for the sky layout, the Galactic sampler. "
+                "requests: permuted interior, alternating samplers, request arrays modified in place; and the same points in other memory layouts / "
+                "dimensionalities: Fortran order, views, read-only, mixed layouts, 0-d/1-d/3-d) and, for the sky layout, the Galactic sampler. "
                 "distinct = distinct (layout, nx, ny, g, family); every table is non-trivial (>= 4 points)")
     if ctx.replay_path:
         rep = json.load(open(ctx.replay_path))["replay"]
